@@ -373,10 +373,69 @@ class GModel:
 # real world
 
 
+class GMHist(storesim.MHist):
+    """MHist that also takes revisions whose LEFT-HAND parent is a ghost: their tree starts
+    from the empty tree (that is how the real revision is built, too)."""
+
+    def tree(self, rid):
+        return self.revs[rid]["tree"] if rid in self.revs else {}
+
+
+def replay_model(specs):
+    mh = GMHist()
+    for s in specs:
+        mh.add(s)
+    return mh
+
+
+def ghost_mainline(mh, rid):
+    """The left-hand chain of rid ends in a ghost (revision numbers along it count from the
+    ghost's child, and graph walks down the mainline raise when they reach the ghost)."""
+    while rid in mh.revs:
+        ps = mh.revs[rid]["parents"]
+        if not ps:
+            return False
+        rid = ps[0]
+    return rid is not None and rid != NULL
+
+
 def build_dag(branch, specs):
     """Commit all model revisions through one branch (its tip follows the last spec's
-    left-hand line; callers set tips afterwards with point_branch)."""
-    return storesim.commit_specs(branch, specs)
+    left-hand line; callers set tips afterwards with point_branch).  Revisions whose
+    left-hand parent is a ghost are committed on the emptied branch with
+    allow_leftmost_as_ghost."""
+    ids = {s["id"] for s in specs}
+    if not any(s["parents"] and s["parents"][0] not in ids for s in specs):
+        return storesim.commit_specs(branch, specs)
+    from breezy import branchbuilder
+
+    bb = branchbuilder.BranchBuilder(branch=branch)
+    run = []
+
+    def flush():
+        if run:
+            storesim.commit_specs(branch, list(run), builder=bb)
+            del run[:]
+
+    for spec in specs:
+        if spec["parents"] and spec["parents"][0] not in ids:
+            flush()
+            with branch.lock_write():
+                branch.set_last_revision_info(0, b"null:")
+            bb.build_snapshot(
+                [p.encode() for p in spec["parents"]],
+                storesim.to_actions(spec),
+                message=spec["msg"],
+                timestamp=spec["ts"],
+                timezone=0,
+                committer=storesim.COMMITTER,
+                revision_id=spec["id"].encode(),
+                allow_leftmost_as_ghost=True,
+            )
+        else:
+            run.append(spec)
+    flush()
+    return bb
 
 
 def point_branch(branch, gm, tip):
